@@ -12,11 +12,11 @@ use bytes::BytesMut;
 use domain::base::iana::{Class, Opcode, OptRcode, OptionCode, Rcode};
 use domain::base::message_builder::{
     AdditionalBuilder, AnswerBuilder, AuthorityBuilder, HashCompressor, PushError, QuestionBuilder,
-    StaticCompressor, StreamTarget, TreeCompressor,
+    RecordSectionBuilder, StaticCompressor, StreamTarget, TreeCompressor,
 };
 use domain::base::name::{Name, ParsedName, ToLabelIter, ToName};
 use domain::base::rdata::{ComposeRecordData, RecordData, UnknownRecordData};
-use domain::base::record::RecordHeader;
+use domain::base::record::{ComposeRecord, RecordHeader};
 use domain::base::wire::Composer;
 use domain::base::opt::cookie::{ClientCookie, ServerCookie};
 use domain::base::opt::{Cookie, KeyTag, Nsid, Opt, OptRecord, Padding, TcpKeepalive};
@@ -450,6 +450,17 @@ enum Res {
 }
 
 /// Runs one op; `Err` is a panic (the builder is gone or unusable then).
+/// Section-generic push: the `RecordSectionBuilder` trait, as code that does not
+/// know which record section it writes to uses it.
+fn tpush<T: Composer, S: RecordSectionBuilder<T>>(s: &mut S, r: impl ComposeRecord) -> Result<(), PushError> {
+    s.push(r)
+}
+/// Whether a record goes in through the trait or through the inherent `push`:
+/// decided by the case line alone (owner length + TTL odd), so a case replays identically.
+fn via_trait(owner: &Name<Vec<u8>>, ttl: u32) -> bool {
+    (owner.as_slice().len() as u32).wrapping_add(ttl) & 1 == 1
+}
+
 fn apply<T: Tgt>(slot: &mut Option<Bld<T>>, op: &COp) -> Result<Res, String> {
     match op {
         COp::Q { name, qt, qc } => match slot.as_mut() {
@@ -459,27 +470,29 @@ fn apply<T: Tgt>(slot: &mut Option<Bld<T>>, op: &COp) -> Result<Res, String> {
         },
         COp::R { owner, cl, ttl, raw } => {
             let cl = Class::from_int(*cl);
+            let tr = via_trait(owner, *ttl);
             match slot.as_mut() {
-                Some(Bld::An(b)) => catch_mut(|| Res::Push(b.push((owner, cl, *ttl, raw)))),
-                Some(Bld::Ns(b)) => catch_mut(|| Res::Push(b.push((owner, cl, *ttl, raw)))),
-                Some(Bld::Ar(b)) => catch_mut(|| Res::Push(b.push((owner, cl, *ttl, raw)))),
+                Some(Bld::An(b)) => catch_mut(|| Res::Push(if tr { tpush::<T, _>(b, (owner, cl, *ttl, raw)) } else { b.push((owner, cl, *ttl, raw)) })),
+                Some(Bld::Ns(b)) => catch_mut(|| Res::Push(if tr { tpush::<T, _>(b, (owner, cl, *ttl, raw)) } else { b.push((owner, cl, *ttl, raw)) })),
+                Some(Bld::Ar(b)) => catch_mut(|| Res::Push(if tr { tpush::<T, _>(b, (owner, cl, *ttl, raw)) } else { b.push((owner, cl, *ttl, raw)) })),
                 Some(Bld::Q(_)) => Ok(Res::Skip),
                 None => Err("no builder".into()),
             }
         }
         COp::T { owner, cl, ttl, typed } => {
             let cl = Class::from_int(*cl);
+            let tr = via_trait(owner, *ttl);
             macro_rules! push_typed {
                 ($b:expr) => {
                     match typed {
-                        Typed::A(d) => $b.push((owner, cl, *ttl, d)),
-                        Typed::Aaaa(d) => $b.push((owner, cl, *ttl, d)),
-                        Typed::Ns(d) => $b.push((owner, cl, *ttl, d)),
-                        Typed::Cname(d) => $b.push((owner, cl, *ttl, d)),
-                        Typed::Ptr(d) => $b.push((owner, cl, *ttl, d)),
-                        Typed::Mx(d) => $b.push((owner, cl, *ttl, d)),
-                        Typed::Soa(d) => $b.push((owner, cl, *ttl, d)),
-                        Typed::Srv(d) => $b.push((owner, cl, *ttl, d)),
+                        Typed::A(d) => if tr { tpush::<T, _>($b, (owner, cl, *ttl, d)) } else { $b.push((owner, cl, *ttl, d)) },
+                        Typed::Aaaa(d) => if tr { tpush::<T, _>($b, (owner, cl, *ttl, d)) } else { $b.push((owner, cl, *ttl, d)) },
+                        Typed::Ns(d) => if tr { tpush::<T, _>($b, (owner, cl, *ttl, d)) } else { $b.push((owner, cl, *ttl, d)) },
+                        Typed::Cname(d) => if tr { tpush::<T, _>($b, (owner, cl, *ttl, d)) } else { $b.push((owner, cl, *ttl, d)) },
+                        Typed::Ptr(d) => if tr { tpush::<T, _>($b, (owner, cl, *ttl, d)) } else { $b.push((owner, cl, *ttl, d)) },
+                        Typed::Mx(d) => if tr { tpush::<T, _>($b, (owner, cl, *ttl, d)) } else { $b.push((owner, cl, *ttl, d)) },
+                        Typed::Soa(d) => if tr { tpush::<T, _>($b, (owner, cl, *ttl, d)) } else { $b.push((owner, cl, *ttl, d)) },
+                        Typed::Srv(d) => if tr { tpush::<T, _>($b, (owner, cl, *ttl, d)) } else { $b.push((owner, cl, *ttl, d)) },
                     }
                 };
             }
@@ -498,10 +511,11 @@ fn apply<T: Tgt>(slot: &mut Option<Bld<T>>, op: &COp) -> Result<Res, String> {
                 Ok(Some(d)) => d,
                 _ => return Err("harness: typed record data no longer parses".into()),
             };
+            let tr = via_trait(owner, *ttl);
             match slot.as_mut() {
-                Some(Bld::An(b)) => catch_mut(|| Res::Push(b.push((owner, cl, *ttl, &data)))),
-                Some(Bld::Ns(b)) => catch_mut(|| Res::Push(b.push((owner, cl, *ttl, &data)))),
-                Some(Bld::Ar(b)) => catch_mut(|| Res::Push(b.push((owner, cl, *ttl, &data)))),
+                Some(Bld::An(b)) => catch_mut(|| Res::Push(if tr { tpush::<T, _>(b, (owner, cl, *ttl, &data)) } else { b.push((owner, cl, *ttl, &data)) })),
+                Some(Bld::Ns(b)) => catch_mut(|| Res::Push(if tr { tpush::<T, _>(b, (owner, cl, *ttl, &data)) } else { b.push((owner, cl, *ttl, &data)) })),
+                Some(Bld::Ar(b)) => catch_mut(|| Res::Push(if tr { tpush::<T, _>(b, (owner, cl, *ttl, &data)) } else { b.push((owner, cl, *ttl, &data)) })),
                 Some(Bld::Q(_)) => Ok(Res::Skip),
                 None => Err("no builder".into()),
             }
